@@ -7,6 +7,7 @@ package main
 
 import (
 	"go/ast"
+	"go/constant"
 	"go/token"
 	"go/types"
 
@@ -107,55 +108,81 @@ func (c *Ctx) loopMeasure(loop map[*ssa.BasicBlock]bool, h *ssa.BasicBlock) (str
 			}
 		}
 	}
-	// P1: visited set
+	// P4: every iteration consumes input: a block that every way back to the head passes holds r.DiscardWhile(p) /
+	// r.NextWhile(p) on a reader whose next rune is known there (`r.Peek() == k` on the way) with p(k) true, so at least
+	// that rune is consumed; a ybase.Reader only moves forward and its input is finite
+	for b := range loop {
+		dominatesLatches := true
+		for _, l := range latches {
+			if !(b == l || b.Dominates(l)) {
+				dominatesLatches = false
+			}
+		}
+		if !dominatesLatches {
+			continue
+		}
+		for _, in := range b.Instrs {
+			call, ok := in.(*ssa.Call)
+			if !ok || !call.Call.IsInvoke() || (call.Call.Method.Name() != "DiscardWhile" && call.Call.Method.Name() != "NextWhile") {
+				continue
+			}
+			pf := funcOfValue(call.Call.Args[0])
+			if pf == nil || len(pf.Params) != 1 {
+				continue
+			}
+			for _, pc := range pathConds(b) {
+				cmp, ok := pc.cond.(*ssa.BinOp)
+				if !ok || (cmp.Op != token.EQL && cmp.Op != token.NEQ) || (cmp.Op == token.EQL) != pc.side {
+					continue
+				}
+				pk, ok := cmp.X.(*ssa.Call)
+				if !ok || !pk.Call.IsInvoke() || pk.Call.Method.Name() != "Peek" || cellValue(pk.Call.Value) != cellValue(call.Call.Value) || !loop[pk.Block()] {
+					continue
+				}
+				k, ok := cmp.Y.(*ssa.Const)
+				if !ok || k.Value == nil {
+					continue
+				}
+				r, err := c.newFolder().foldCall(pf, []fval{{k: k.Value, t: pf.Params[0].Type()}})
+				if err == nil && r.k != nil && r.k.Kind() == constant.Bool && constant.BoolVal(r.k) {
+					return "every iteration consumes at least the rune it has just peeked (" + call.Call.Method.Name() + " with a predicate that holds for it); a reader only moves forward over finite input", true
+				}
+			}
+		}
+	}
+	// P1: visited set (kept in a map directly, or behind add / has helpers)
 	for b := range loop {
 		for _, in := range b.Instrs {
-			mu, ok := in.(*ssa.MapUpdate)
+			add, ok := setAddOf(in)
 			if !ok {
 				continue
 			}
-			if _, local := mu.Map.(*ssa.MakeMap); !local {
+			if _, local := stripChangeType(add.set).(*ssa.MakeMap); !local {
 				continue
 			}
 			dominatesLatches := true
 			for _, l := range latches {
-				if !(mu.Block() == l || mu.Block().Dominates(l)) {
+				if !(in.Block() == l || in.Block().Dominates(l)) {
 					dominatesLatches = false
 				}
 			}
 			if !dominatesLatches {
 				continue
 			}
-			// a lookup of the same key in the same set decides whether the walk goes on
+			// a test of the same key in the same set decides whether the walk goes on
 			for b2 := range loop {
 				for _, in2 := range b2.Instrs {
-					lk, ok := in2.(*ssa.Lookup)
-					if !ok || lk.X != mu.Map || !sameFieldValue(lk.Index, mu.Key) {
+					test, ok := setTestOf(in2)
+					if !ok || stripChangeType(test.set) != stripChangeType(add.set) || !sameFieldValue(test.key, add.key) || test.result == nil {
 						continue
 					}
-					var cond ssa.Value = lk
-					if lk.CommaOk {
-						cond = nil
-						for _, r := range *lk.Referrers() {
-							if ex, ok := r.(*ssa.Extract); ok {
-								for _, rr := range *ex.Referrers() {
-									if _, ok := rr.(*ssa.If); ok {
-										cond = ex
-									}
-								}
-							}
-						}
-					}
-					if cond == nil {
-						continue
-					}
-					for _, r := range *cond.Referrers() {
+					for _, r := range *test.result.Referrers() {
 						iff, ok := r.(*ssa.If)
 						if !ok {
 							continue
 						}
 						// a key that is already in the set ends the walk; the update happens on the other side
-						if trueLeaves, _ := exitsOn(iff); trueLeaves && dominatesInstr(lk, mu) && c.keyFromFiniteTable(mu.Key) {
+						if trueLeaves, _ := exitsOn(iff); trueLeaves && dominatesInstr(in2, in) && c.keyFromFiniteTable(add.key) {
 							return "every iteration that goes on adds a key of a finite table to a local visited set; a key seen before ends the loop", true
 						}
 					}
@@ -300,4 +327,119 @@ func sameFieldValue(a, b ssa.Value) bool {
 		}
 	}
 	return false
+}
+
+// setOp: an operation on a set kept in a map: adding a key, or testing a key (result is the boolean that says "present").
+type setOp struct {
+	set, key ssa.Value
+	result   ssa.Value
+}
+
+func stripChangeType(v ssa.Value) ssa.Value {
+	for {
+		ct, ok := v.(*ssa.ChangeType)
+		if !ok {
+			return v
+		}
+		v = ct.X
+	}
+}
+
+// setAddOf: the instruction puts a key into a map - `m[k] = v`, or a call of a helper whose whole body is `p[q] = v` for
+// two of its parameters (`seen.add(name)`).
+func setAddOf(in ssa.Instruction) (setOp, bool) {
+	switch x := in.(type) {
+	case *ssa.MapUpdate:
+		return setOp{set: x.Map, key: x.Key}, true
+	case *ssa.Call:
+		g := staticCallee(&x.Call)
+		if g == nil || len(g.Blocks) != 1 || x.Call.IsInvoke() {
+			return setOp{}, false
+		}
+		var mu *ssa.MapUpdate
+		for _, gi := range g.Blocks[0].Instrs {
+			switch y := gi.(type) {
+			case *ssa.MapUpdate:
+				if mu != nil {
+					return setOp{}, false
+				}
+				mu = y
+			case *ssa.Return, *ssa.DebugRef:
+			default:
+				if _, isVal := gi.(ssa.Value); !isVal {
+					return setOp{}, false // another effect
+				}
+				if _, isCall := gi.(*ssa.Call); isCall {
+					return setOp{}, false
+				}
+			}
+		}
+		if mu == nil {
+			return setOp{}, false
+		}
+		mi, ki := paramIndexOf(g, stripChangeType(mu.Map)), paramIndexOf(g, mu.Key)
+		if mi < 0 || ki < 0 || mi >= len(x.Call.Args) || ki >= len(x.Call.Args) {
+			return setOp{}, false
+		}
+		return setOp{set: x.Call.Args[mi], key: x.Call.Args[ki]}, true
+	}
+	return setOp{}, false
+}
+
+// setTestOf: the instruction asks whether a key is in a map - `m[k]` (comma-ok or a boolean element), or a call of a
+// helper that returns just that for two of its parameters (`seen.has(name)`).
+func setTestOf(in ssa.Instruction) (setOp, bool) {
+	presence := func(lk *ssa.Lookup) ssa.Value {
+		if _, isMap := lk.X.Type().Underlying().(*types.Map); !isMap {
+			return nil
+		}
+		if !lk.CommaOk {
+			return lk
+		}
+		for _, r := range *lk.Referrers() {
+			if ex, ok := r.(*ssa.Extract); ok && ex.Index == 1 {
+				return ex
+			}
+		}
+		return nil
+	}
+	switch x := in.(type) {
+	case *ssa.Lookup:
+		if res := presence(x); res != nil {
+			return setOp{set: x.X, key: x.Index, result: res}, true
+		}
+	case *ssa.Call:
+		g := staticCallee(&x.Call)
+		if g == nil || len(g.Blocks) != 1 || x.Call.IsInvoke() || g.Signature.Results().Len() != 1 {
+			return setOp{}, false
+		}
+		rets := returnsOf(g)
+		if len(rets) != 1 {
+			return setOp{}, false
+		}
+		var lk *ssa.Lookup
+		for _, gi := range g.Blocks[0].Instrs {
+			if l, ok := gi.(*ssa.Lookup); ok {
+				lk = l
+			}
+		}
+		if lk == nil || presence(lk) != rets[0].Results[0] {
+			return setOp{}, false
+		}
+		mi, ki := paramIndexOf(g, stripChangeType(lk.X)), paramIndexOf(g, lk.Index)
+		if mi < 0 || ki < 0 || mi >= len(x.Call.Args) || ki >= len(x.Call.Args) {
+			return setOp{}, false
+		}
+		return setOp{set: x.Call.Args[mi], key: x.Call.Args[ki], result: x}, true
+	}
+	return setOp{}, false
+}
+
+func paramIndexOf(fn *ssa.Function, v ssa.Value) int {
+	for i, p := range fn.Params {
+		if ssa.Value(p) == v {
+			return i
+		}
+	}
+	return -1
 }
